@@ -1,6 +1,6 @@
 """Expected normalised sources (docstrings, annotations and logging calls removed, re-printed by ast.unparse) of the
 functions whose control flow Model/RewardGraph.lean, Model/Reward.lean and Model/RewardState.lean transcribe by hand.
-(The reward components' `calculate` methods and `access_from_nested_dict` are NOT here: they are translated statement by statement by reward_calc.py and
+(The reward components' `calculate` methods, `access_from_nested_dict`, `RewardFunction.update` and `update_agents` are NOT here: they are translated statement by statement by reward_calc.py and
 proved equivalent to their models for all inputs.)"""
 
 SHAPES = {
@@ -46,22 +46,6 @@ SHAPES = {
         self.register_component(component=rew_instance, weight=rew_config.weight)''',
     'register_component': '''def register_component(self, component, weight=1.0):
     self.reward_components.append((component, weight))''',
-    'update': '''def update(self, state, last_action_response):
-    total = 0.0
-    for comp_and_weight in self.reward_components:
-        comp = comp_and_weight[0]
-        weight = comp_and_weight[1]
-        total += weight * comp.calculate(state=state, last_action_response=last_action_response)
-    self.current_reward = total
-    return self.current_reward''',
-    'update_agents': '''def update_agents(self, state):
-    for agent_name in self._reward_calculation_order:
-        agent = self.agents[agent_name]
-        if self.step_counter > 0:
-            agent.update_reward(state=state)
-            agent.save_reward_to_history()
-        agent.update_observation(state=state)
-        agent.reward_function.total_reward += agent.reward_function.current_reward''',
     'setup_reward_sharing': '''def setup_reward_sharing(self):
     graph = {}
     for name, agent in self.agents.items():
